@@ -70,6 +70,35 @@ pub fn step(st: &mut St, toks: &[&str]) -> String {
             };
             update(h, &d)
         }
+        // C17: the same bytes (byte i = pat_byte(seed, i mod 2^20)) in ONE `update` call (`bigupd`) or
+        // in 1 MiB calls (`stream`)
+        ["groestl", op @ ("bigupd" | "stream"), slot, nbytes, seed] => {
+            let (Some(n), Some(sd)) = (num(nbytes), num(seed)) else {
+                return "bad-op".into();
+            };
+            let Some(h) = num(slot).and_then(|s| st.hs.get_mut(&s)) else {
+                return "bad-op".into();
+            };
+            let chunk = pat_bytes(sd, 1 << 20);
+            if *op == "bigupd" {
+                let mut big = Vec::with_capacity(n as usize);
+                while big.len() < n as usize {
+                    let k = (n as usize - big.len()).min(chunk.len());
+                    big.extend_from_slice(&chunk[..k]);
+                }
+                update(h, &big)
+            } else {
+                let mut left = n as usize;
+                while left > 0 {
+                    let k = left.min(chunk.len());
+                    if update(h, &chunk[..k]) != "ok" {
+                        return "panic".into();
+                    }
+                    left -= k;
+                }
+                "ok".into()
+            }
+        }
         ["groestl", "updpat", slot, len, seed] => {
             let (Some(l), Some(sd)) = (num(len), num(seed)) else {
                 return "bad-op".into();
@@ -100,11 +129,15 @@ pub fn step(st: &mut St, toks: &[&str]) -> String {
                 None => "panic".into(),
             }
         }
-        ["groestl", "finreset", slot] => {
+        ["groestl", op @ ("finreset" | "finreset2"), slot] => {
             let Some(h) = num(slot).and_then(|s| st.hs.get_mut(&s)) else {
                 return "bad-op".into();
             };
-            match guard(|| with!(h, x, x.finalize_fixed_reset().to_vec())) {
+            match guard(|| with!(h, x, if *op == "finreset" {
+                x.finalize_fixed_reset().to_vec()
+            } else {
+                digest::Digest::finalize_reset(x).to_vec()
+            })) {
                 Some(v) => hex_nodash(&v),
                 None => "panic".into(),
             }
